@@ -45,6 +45,10 @@ static inline void st(uint32_t a, uint64_t v, int n){ ST[nstores].a=a; ST[nstore
 #define mem_store_u16(a,v) st(a,(uint16_t)(v),2)
 #define mem_store_u32(a,v) st(a,(uint32_t)(v),4)
 #define mem_store_u64(a,v) st(a,(uint64_t)(v),8)
+#define mem_store_s8(a,v) st(a,(uint8_t)(int8_t)(v),1)
+#define mem_store_s16(a,v) st(a,(uint16_t)(int16_t)(v),2)
+#define mem_store_s32(a,v) st(a,(uint32_t)(int32_t)(v),4)
+#define mem_store_s64(a,v) st(a,(uint64_t)(int64_t)(v),8)
 static inline uint64_t extract64(uint64_t value, int start, int length){ return (value >> start) & (~0ULL >> (64 - length)); }
 static inline int64_t sextract64(uint64_t value, int start, int length){ return ((int64_t)(value << (64 - length - start))) >> (64 - length); }
 static inline uint32_t extract32(uint32_t value, int start, int length){ return (value >> start) & (~0U >> (32 - length)); }
